@@ -3,8 +3,8 @@
    parent, which topic names are in use), updated from the OBSERVED results, that checks every result against
    the property:  delete of a non-empty parent / of a topic in use -> PreconditionNotMet, the entity and its
    children keep answering; any operation through a proxy of a deleted entity -> AlreadyDeleted; deleting through
-   a parent that is not the entity's parent fails; after delete_contained_entities every child is deleted and
-   delete_participant succeeds.  Every violation carries a class: 0 = not explained, k > 0 = the recorded
+   a parent that is not the entity's parent fails; after delete_contained_entities every child (content filtered
+   topics included, since 7cc766b) is deleted and delete_participant succeeds.  Every violation carries a class: 0 = not explained, k > 0 = the recorded
    finding k. *)
 From DustDDS Require Export Entity.EntityCorr.
 Open Scope Z_scope.
@@ -15,7 +15,8 @@ Record tent : Type := mkTE {
   te_part : Z;       (* index of the participant proxy it belongs to (a participant: its own index) *)
   te_par : Z;        (* index of the parent publisher/subscriber proxy (endpoints), else -1 *)
   te_name : Z;       (* topic: its name; cft: the related topic's name; endpoint: the name of the topic it uses *)
-  te_flag : bool     (* participant: a content filtered topic was created in it; endpoint: created on a cft *)
+  te_flag : bool;    (* endpoint: created on a content filtered topic *)
+  te_cft : Z         (* content filtered topic: its own name; reader created on one: that name; else 0 *)
 }.
 Record trk : Type := mkTrk {
   k_P : list tent; k_T : list tent; k_C : list tent; k_PUB : list tent; k_SUB : list tent;
@@ -23,8 +24,12 @@ Record trk : Type := mkTrk {
 }.
 Definition trk0 : trk := mkTrk [] [] [] [] [] [] [].
 
-Definition kill (e : tent) : tent := mkTE false (te_part e) (te_par e) (te_name e) (te_flag e).
-Definition flag (e : tent) : tent := mkTE (te_live e) (te_part e) (te_par e) (te_name e) true.
+Definition kill (e : tent) : tent := mkTE false (te_part e) (te_par e) (te_name e) (te_flag e) (te_cft e).
+Fixpoint kill_first (f : tent -> bool) (l : list tent) : list tent :=
+  match l with
+  | [] => []
+  | e :: t => if te_live e && f e then kill e :: t else e :: kill_first f t
+  end.
 Definition kill_if (p : tent -> bool) (l : list tent) : list tent := map (fun e => if p e then kill e else e) l.
 Definition ex_live (p : tent -> bool) (l : list tent) : bool := existsb (fun e => te_live e && p e) l.
 
@@ -57,8 +62,11 @@ Definition uses (p name : Z) (e : tent) : bool := (te_part e =? p) && (te_name e
 Definition topic_direct_use (k : trk) (p name : Z) : bool :=
   ex_live (fun e => uses p name e && negb (te_flag e)) (k_W k)
   || ex_live (fun e => uses p name e && negb (te_flag e)) (k_R k).
-Definition topic_cft_use (k : trk) (p name : Z) : bool :=
-  ex_live (fun e => uses p name e && te_flag e) (k_R k) || ex_live (uses p name) (k_C k).
+(* a live content filtered topic refers to the topic (a reader created on one keeps it alive) *)
+Definition topic_cft_use (k : trk) (p name : Z) : bool := ex_live (uses p name) (k_C k).
+(* content filtered topics are resolved by name as well: another live proxy of the same participant and name *)
+Definition same_cft (ce : tent) (e : tent) : bool := (te_part e =? te_part ce) && (te_cft e =? te_cft ce).
+Definition cft_twin (k : trk) (ce : tent) : bool := ex_live (same_cft ce) (k_C k).
 (* another LIVE topic proxy with the same participant and name (the name was created again) *)
 Definition name_recreated (k : trk) (p name : Z) : bool := ex_live (uses p name) (k_T k).
 
@@ -66,7 +74,7 @@ Definition kill_part_children (k : trk) (p : Z) : trk :=
   mkTrk (k_P k) (kill_if (in_part p) (k_T k)) (kill_if (in_part p) (k_C k)) (kill_if (in_part p) (k_PUB k))
         (kill_if (in_part p) (k_SUB k)) (kill_if (in_part p) (k_W k)) (kill_if (in_part p) (k_R k)).
 
-Definition CLS_CFT : N := 1%N.     (* content filtered topics are not tracked as contained entities *)
+(* class 1 (content filtered topics not contained) was repaired by 7cc766b *)
 Definition CLS_NAME : N := 2%N.    (* topic proxies are resolved by name: a stale proxy reaches the new topic *)
 
 (* an operation through proxy e that is NOT a delete: dead -> AlreadyDeleted, live -> anything but AlreadyDeleted *)
@@ -87,11 +95,11 @@ Definition c36_step (k : trk) (o : wop) (r : ret) : trk * list N :=
   match o with
   | WFq _ => (k, [])
   | WP _ =>
-      if is_handle r then (set_P k (k_P k ++ [mkTE true (Z.of_nat (length (k_P k))) (-1) 0 false]), [])
+      if is_handle r then (set_P k (k_P k ++ [mkTE true (Z.of_nat (length (k_P k))) (-1) 0 false 0]), [])
       else (k, [0%N])
   | WT p name _ =>
       let v := chk_use (part_live k p) r 0%N in
-      if is_handle r then (set_T k (k_T k ++ [mkTE true p (-1) name false]), v) else (k, v)
+      if is_handle r then (set_T k (k_T k ++ [mkTE true p (-1) name false 0]), v) else (k, v)
   | WCft p name t =>
       match nthz (k_T k) t with
       | None => (k, [])
@@ -101,13 +109,12 @@ Definition c36_step (k : trk) (o : wop) (r : ret) : trk * list N :=
           let v := if live then chk_use true r 0%N
                    else if any_err r then [] else [stale_topic_cls k te] in
           if is_unit r then
-            (set_P (set_C k (k_C k ++ [mkTE true (te_part te) (-1) (te_name te) false]))
-                   (updz (k_P k) (te_part te) flag), v)
+            (set_C k (k_C k ++ [mkTE true (te_part te) (-1) (te_name te) false name]), v)
           else (k, v)
       end
   | WG sd p _ =>
       let v := chk_use (part_live k p) r 0%N in
-      if is_handle r then (set_G sd k (k_G sd k ++ [mkTE true p (-1) 0 false]), v) else (k, v)
+      if is_handle r then (set_G sd k (k_G sd k ++ [mkTE true p (-1) 0 false 0]), v) else (k, v)
   | WE sd g t _ =>
       match nthz (k_G sd k) g, nthz (k_T k) t with
       | Some ge, Some te =>
@@ -119,7 +126,7 @@ Definition c36_step (k : trk) (o : wop) (r : ret) : trk * list N :=
                    else if negb same then []
                    else if tlive then chk_use true r 0%N
                    else chk_use false r (stale_topic_cls k te) in
-          if is_handle r then (set_E sd k (k_E sd k ++ [mkTE true (te_part ge) g (te_name te) false]), v)
+          if is_handle r then (set_E sd k (k_E sd k ++ [mkTE true (te_part ge) g (te_name te) false 0]), v)
           else (k, v)
       | _, _ => (k, [])
       end
@@ -130,12 +137,10 @@ Definition c36_step (k : trk) (o : wop) (r : ret) : trk * list N :=
           let same := te_part ce =? te_part ge in
           let v := if negb glive then chk_use false r 0%N
                    else if negb same then []
-                   else if te_live ce then
-                     (* its related topic can only be gone through the recorded finding (delete_topic ignores
-                        content filtered topics): whatever happens then is a consequence of it *)
-                     (if name_recreated k (te_part ce) (te_name ce) then chk_use true r 0%N else [])
-                   else chk_use false r CLS_CFT in
-          if is_handle r then (set_E SSub k (k_R k ++ [mkTE true (te_part ge) g (te_name ce) true]), v)
+                   else if te_live ce then chk_use true r 0%N
+                   else if cft_twin k ce then []
+                   else chk_use false r 0%N in
+          if is_handle r then (set_E SSub k (k_R k ++ [mkTE true (te_part ge) g (te_name ce) true (te_cft ce)]), v)
           else (k, v)
       | _, _ => (k, [])
       end
@@ -181,19 +186,23 @@ Definition c36_step (k : trk) (o : wop) (r : ret) : trk * list N :=
                  else [if own then stale_topic_cls k te else 0%N])
           else if negb own || negb (part_live k vp) then (k1, if any_err r then [] else [0%N])
           else if topic_direct_use k p (te_name te) then (k1, if is_err r E_PRECONDITION then [] else [0%N])
-          else if topic_cft_use k p (te_name te) then (k1, if is_err r E_PRECONDITION then [] else [CLS_CFT])
+          else if topic_cft_use k p (te_name te) then (k1, if is_err r E_PRECONDITION then [] else [0%N])
           else (k1, if is_unit r then [] else [0%N])
       end
   | WDelCft c via =>
       match nthz (k_C k) c with
       | None => (k, [])
       | Some ce =>
-          let k1 := if is_unit r then set_C k (updz (k_C k) c kill) else k in
-          if negb (te_live ce) || negb (part_live k (te_part ce)) then
-            (k1, if is_err r E_DELETED then [] else [CLS_CFT])
-          else if ex_live (fun e => te_flag e && uses (te_part ce) (te_name ce) e) (k_R k) then
-            (* a reader still uses it: DDS asks for PreconditionNotMet *)
-            (k1, if is_err r E_PRECONDITION then [] else [CLS_CFT])
+          let live := te_live ce && part_live k (te_part ce) in
+          (* the implementation removes the first entry of that name: follow it *)
+          let k1 := if is_unit r then
+                      set_C k (if live then updz (k_C k) c kill else kill_first (same_cft ce) (k_C k))
+                    else k in
+          if negb live then
+            (k1, if cft_twin k ce && part_live k (te_part ce) then [] else if is_err r E_DELETED then [] else [0%N])
+          else if ex_live (fun e => te_flag e && same_cft ce e) (k_R k) then
+            (* a reader was created on it *)
+            (k1, if is_err r E_PRECONDITION then [] else [0%N])
           else (k1, if is_unit r then [] else [0%N])
       end
   | WDelAll p =>
@@ -207,8 +216,7 @@ Definition c36_step (k : trk) (o : wop) (r : ret) : trk * list N :=
           let k1 := if is_unit r then set_P (kill_part_children k p) (updz (k_P k) p kill) else k in
           if negb (te_live pe) then (k1, if is_err r E_DELETED then [] else [0%N])
           else if has_children k p then (k1, if is_err r E_PRECONDITION then [] else [0%N])
-          else (k1, if is_unit r then [] else
-                      [if te_flag pe && is_err r E_PRECONDITION then CLS_CFT else 0%N])
+          else (k1, if is_unit r then [] else [0%N])
       end
   | WGq kd i | WEn kd i =>
       match kd with
